@@ -39,12 +39,14 @@ def sweep(ctx):
             ctx.violation('texture:sweep:%s:not-injective' % name, 'only %d distinct ARGB values for %d pixel values' % (res['distinct_argb'], res['count']), {'format': name})
         else: ctx.fp('sweep', name)
 
+COLORKEY = {}     # path -> colour key requested for the entries of the case being built (old-header games only)
+
 def entry_text(game, path, w, h, fmt, ox, oy, new):
     rt = lambda n: max(1, 1 << (n - 1).bit_length())
     f = ['path: "%s"' % path, 'has_data: "dummy"', 'img_width: %d' % w, 'img_height: %d' % h, 'img_format: %d' % fmt,
          'rt_width: %d' % rt(w + ox), 'rt_height: %d' % rt(h + oy), 'rt_format: %d' % fmt, 'memory_priority: 0', 'sprites: {}']
     if new: f += ['offset_x: %d' % ox, 'offset_y: %d' % oy, 'low_res_scale: false']
-    else: f += ['colorkey: 0']
+    else: f += ['colorkey: %d' % COLORKEY.get(path, 0)]
     return 'entry { %s }\n' % ', '.join(f)
 
 def make_anm(ctx, game, specs, name, textures):
@@ -118,7 +120,18 @@ def case(ctx, r, specs=None, textures=None, tag=''):
         specs = gen_specs(r, game)
         textures = [rand_tex(r, s[1] * s[2] * FORMATS[s[3]][1], r.wpick([('random', 6), ('ramp', 2), ('extremes', 2), ('flat', 1)])) for s in specs]
     ctx.evaluations += 1
-    replay = {'game': game, 'specs': specs, 'textures_hex': [t.hex() if len(t) <= 4096 else t[:4096].hex() + '...' for t in textures]}
+    COLORKEY.clear()
+    if game in GAMES_OLD and r.chance(0.6):
+        # a colour key that matches pixels of the texture itself (transparent-colour entries of the old games): extraction and
+        # re-import must still reproduce the bytes, whatever the key means to the game
+        for sp, tx in zip(specs, textures):
+            bpp = FORMATS[sp[3]][1]; px = tx[:bpp]
+            if sp[3] == 1: key = (px[2] << 16) | (px[1] << 8) | px[0]
+            elif sp[3] == 5: v = px[0] | (px[1] << 8); key = (((v >> 8) & 15) * 17 << 16) | (((v >> 4) & 15) * 17 << 8) | ((v & 15) * 17)
+            else: key = r.pick([0xff00ff, 0x000000, 0x123456])
+            COLORKEY[sp[0]] = key if r.chance(0.8) else r.pick([0xff00ff, 1])
+        ctx.count('cases_with_colorkey')
+    replay = {'game': game, 'specs': specs, 'colorkeys': dict(COLORKEY), 'textures_hex': [t.hex() if len(t) <= 4096 else t[:4096].hex() + '...' for t in textures]}
     for d in ('ex', 'exB'):
         shutil.rmtree(os.path.join(ctx.dir, d), ignore_errors=True)
     orig, err = make_anm(ctx, game, specs, 'orig.anm', textures)
